@@ -442,3 +442,41 @@ Definition prune_verdict (c : prune_case) : verdict :=
     | v, _ => v
     end
   else Differ.
+
+(* ---- C12: split ---- *)
+From Lekkersim Require Import Split.
+
+Record split_case := {
+  sp_comps : list (nat * nat * lmx); sp_conns : list conn; sp_expo : list spin;
+  sp_order : list nat;                          (* declaration order of the structures *)
+  sp_parts : obs (list (list nat * obs lmx))    (* members of each returned solver, its matrix over
+                                                   the exposed pins it owns (in sp_expo order) *)
+}.
+
+Definition adj_of (cs : list conn) (s : nat) : list nat :=
+  nodupn (flat_map (fun c => if Nat.eqb (fst (fst c)) s then [fst (snd c)]
+                             else if Nat.eqb (fst (snd c)) s then [fst (fst c)] else []) cs).
+
+Definition sub_case (c : split_case) (members : list nat) (o : obs lmx) : net_case :=
+  {| nc_comps := filter (fun t => nin (fst (fst t)) members) (sp_comps c);
+     nc_conns := filter (fun cn => nin (fst (fst cn)) members) (sp_conns c);
+     nc_expo := filter (fun p => nin (fst p) members) (sp_expo c);
+     nc_sched := None; nc_obs := o |}.
+
+Definition split_verdict (c : split_case) : verdict :=
+  match sp_parts c with
+  | Raised => ImplError
+  | Obs parts =>
+      let sets := split_sets (adj_of (sp_conns c)) (sp_order c) in
+      let same_set (a b : list nat) := mseq Nat.eqb a b in
+      if Nat.eqb (List.length sets) (List.length parts) &&
+         forallb (fun S => existsb (fun p => same_set S (fst p)) parts) sets &&
+         forallb (fun p => existsb (fun S => same_set S (fst p)) sets) parts
+      then
+        let vs := map (fun p => net_verdict (sub_case c (fst p) (snd p))) parts in
+        if forallb is_agree vs then Agree
+        else if existsb (fun v => match v with Differ => true | _ => false end) vs then Differ
+        else if existsb (fun v => match v with ImplError => true | _ => false end) vs then ImplError
+        else ModelUndefined
+      else Differ
+  end.
